@@ -27,6 +27,7 @@ type cfg struct {
 	OnClone   bool // the monitor is created on a filter clone (CloneWithFilter(Null)) of the root, not on the root
 	Reuse     bool // a second untyped monitor whose handler comes from the SAME builder with replaced callbacks
 	Upd2      bool // the stream is two updates of one object, then its delete (a lagging handler has both updates queued)
+	Unitary   bool // typed: a unitary handler (OnInitialize gets the one object) adapted by ToUnitary
 	SlowInit  bool // OnInitialize returns only after the whole stream has been published and queued behind it
 	Partial   bool // the handler registers OnCreate and OnUpdate only (no OnInitialize, no OnDelete)
 	Foreign   bool // the cache holds an object of another type at readiness (typed monitors must skip it, not give up)
@@ -54,6 +55,9 @@ func (c cfg) name() string {
 	}
 	if c.SlowInit {
 		t += "+slow-initialize"
+	}
+	if c.Unitary {
+		t += "+unitary-handler"
 	}
 	if c.OnClone {
 		t += "+on-filter-clone"
@@ -163,6 +167,13 @@ func (in *inst) run() {
 			h = pod.BuildHandler().
 				OnCreate(func(p *corev1.Pod) { in.cb("create", hx.ObjString(p)) }).
 				OnUpdate(func(p *corev1.Pod) { in.cb("update", hx.ObjString(p)) }).Create()
+		}
+		if c.Unitary {
+			h = pod.ToUnitary(hx.Log, pod.BuildUnitaryHandler().
+				OnInitialize(func(p *corev1.Pod) { in.cb("init", hx.ListString([]metav1.Object{p})) }).
+				OnCreate(func(p *corev1.Pod) { in.cb("create", hx.ObjString(p)) }).
+				OnUpdate(func(p *corev1.Pod) { in.cb("update", hx.ObjString(p)) }).
+				OnDelete(func(p *corev1.Pod) { in.cb("delete", hx.ObjString(p)) }).Create())
 		}
 		if c.Statement {
 			b := pod.BuildHandler()
@@ -339,6 +350,30 @@ func (in *inst) check(r *vs.Result) []string {
 	if ninit > 1 {
 		msgs = append(msgs, fmt.Sprintf("OnInitialize more than once | calls %v", calls))
 	}
+	if c.Unitary && ninit == 0 {
+		// the unitary adapter passes the content at readiness on only when it is exactly one object: no OnInitialize
+		// is legitimate iff the cache held another number of objects of the type at some instant since readiness
+		other := false
+		for k := 0; k <= len(in.root.Published); k++ {
+			content, _ := hx.Mirror(in.initial, in.root.Published[:k])
+			n := 0
+			for _, o := range strings.Fields(strings.Trim(content, "[]")) {
+				if !strings.HasPrefix(o, "ns/foreign@") {
+					n++
+				}
+			}
+			if n != 1 {
+				other = true
+			}
+		}
+		if !other {
+			msgs = append(msgs, fmt.Sprintf("no OnInitialize although the publisher became ready | unitary handler, the cache held exactly one object of the type all the time; calls %v", calls))
+		}
+		if strings.Join(calls, " ") != strings.Join(in.root.Published, " ") {
+			msgs = append(msgs, fmt.Sprintf("callbacks do not match the delivered events | unitary handler: callbacks %v, published %v", calls, in.root.Published))
+		}
+		return msgs
+	}
 	if len(calls) > 0 && ninit == 0 {
 		msgs = append(msgs, fmt.Sprintf("event callback without OnInitialize | calls %v", calls))
 	}
@@ -433,6 +468,11 @@ func Property() runner.Property {
 				out = append(out, scenario(cfg{Typed: typed, SlowInit: true, K: 3, CloseAt: -1, Closer: "none", Mode: "S2", Bound: 1}))
 				// a long stream on the default schedule: nothing depends on how many callbacks there have been
 				out = append(out, scenario(cfg{Typed: typed, K: 120, CloseAt: -1, Closer: "none", Mode: "D0"}))
+				if typed {
+					// the unitary adapter (the cache holds exactly one object of the type at readiness)
+					out = append(out, scenario(cfg{Typed: true, Unitary: true, K: 3, CloseAt: -1, Closer: "none", Mode: "S2", Bound: 2}))
+					out = append(out, scenario(cfg{Typed: true, Unitary: true, Foreign: true, Upd2: true, K: 2, CloseAt: -1, Closer: "none", Mode: "S2", Bound: 2}))
+				}
 				out = append(out, scenario(cfg{Typed: typed, Partial: true, K: 3, CloseAt: -1, Closer: "none", Mode: "S2", Bound: 1}))
 				out = append(out, scenario(cfg{Typed: typed, Statement: true, K: 2, CloseAt: -1, Closer: "none", Mode: "S2", Bound: 1}))
 				if !typed {
